@@ -20,7 +20,7 @@ def recStr (n : Nat) (r : Rec) : String := natsStr ((List.range n).map r)
 def kopt2 (toks : List String) : Option String := do
   let [[n], rc, [a, b]] ← parseSections toks | none
   let n := n.toNat
-  let r := ofArr (arrOf n (localOp2 n (recOf rc) a.toNat b.toNat))
+  let r := ofArr (arrOf n (Code.localOp2 n (recOf rc) a.toNat b.toNat))
   pure s!"rec={recStr n r} tour={bit (Spec.Improve.isTourB r n)} mask={bit (mask2 a.toNat b.toNat)}"
 
 /-- `improve.koptk n K | rec | sel.. left.. right..` -/
@@ -29,7 +29,7 @@ def koptk (toks : List String) : Option String := do
   let n := n.toNat
   let k := k.toNat
   let act := toNats act
-  let r := ofArr (arrOf n (localOpK n (recOf rc) (act.take k) ((act.drop k).take k) (act.drop (2 * k))))
+  let r := ofArr (arrOf n (Code.localOpK n (recOf rc) (act.take k) ((act.drop k).take k) (act.drop (2 * k))))
   let wf := Spec.Improve.koptMoveWFB n (recOf rc) (act.take k) ((act.drop k).take k) (act.drop (2 * k))
   pure s!"rec={recStr n r} tour={bit (Spec.Improve.isTourB r n)} wf={bit wf}"
 
@@ -42,7 +42,7 @@ def koptgen (toks : List String) : Option String := do
   let vt := ofArr (arrOf n (visitedTime n rc))
   let g := genRun n k rc vt (fnB m0) (toNats ch)
   let (sel, left, right) := genAction k g
-  let r := ofArr (arrOf n (localOpK n rc sel left right))
+  let r := ofArr (arrOf n (Code.localOpK n rc sel left right))
   let ms := ",".intercalate (g.masks.map bits)
   pure s!"action={natsStr (sel ++ left ++ right)} adm={bit g.admitted} stopped={bit g.stopped} masks={ms} next={maskBits n g.mask} rec={recStr n r} tour={bit (Spec.Improve.isTourB r n)} wf={bit (Spec.Improve.koptMoveWFB n rc sel left right)}"
 
@@ -51,8 +51,8 @@ def pdprr (toks : List String) : Option String := do
   let [[gs], rc, [p, f, s]] ← parseSections toks | none
   let gs := gs.toNat
   let rc := recOf rc
-  let r := ofArr (arrOf gs (pdpLocalOp gs rc p.toNat f.toNat s.toNat))
-  let m := pdpMask gs (ofArr (arrOf gs (visitedTime gs rc))) (p.toNat + 1) f.toNat s.toNat
+  let r := ofArr (arrOf gs (Code.pdpLocalOp gs rc p.toNat f.toNat s.toNat))
+  let m := Code.pdpMask gs (ofArr (arrOf gs (visitedTime gs rc))) (p.toNat + 1) f.toNat s.toNat
   pure s!"rec={recStr gs r} tour={bit (Spec.Improve.isTourB r gs)} valid={bit (Spec.Improve.pdpValidB r gs)} mask={bit m}"
 
 /-- `improve.pdpmask gs | rec | p` : the whole `gs × gs` mask (row-major first, second) for pickup node `p` -/
@@ -61,7 +61,7 @@ def pdpmask (toks : List String) : Option String := do
   let gs := gs.toNat
   let rc := recOf rc
   let vt := ofArr (arrOf gs (visitedTime gs rc))
-  let m := (List.range gs).flatMap (fun f => (List.range gs).map (fun s => pdpMask gs vt p.toNat f s))
+  let m := (List.range gs).flatMap (fun f => (List.range gs).map (fun s => Code.pdpMask gs vt p.toNat f s))
   pure s!"mask={bits m} vt={recStr gs vt}"
 
 /-- verdicts of the Spec oracle (and of the checker models) on one successor array:
@@ -71,13 +71,13 @@ def spec (toks : List String) : Option String := do
   let n := n.toNat
   let rc := recOf rc
   let valid := if kind = 0 then Spec.Improve.pdpValidB rc n else Spec.Improve.isTourB rc n
-  let chk := if kind = 0 then checkPdp n rc else checkKopt n rc
+  let chk := if kind = 0 then Code.checkPdp n rc else Code.checkKopt n rc
   pure s!"tour={bit (Spec.Improve.isTourB rc n)} valid={bit valid} check={bit chk} cost={Spec.Improve.cost n (fn2 n dm) rc} vt={recStr n (visitedTime n rc)}"
 
 def applyMove (kind n : Nat) (r : Rec) (act : List Nat) : Rec :=
-  if kind = 0 then pdpLocalOp n r (act.getD 0 0) (act.getD 1 0) (act.getD 2 0)
-  else if kind = 2 then localOp2 n r (act.getD 0 0) (act.getD 1 0)
-  else localOpK n r (act.take kind) ((act.drop kind).take kind) (act.drop (2 * kind))
+  if kind = 0 then Code.pdpLocalOp n r (act.getD 0 0) (act.getD 1 0) (act.getD 2 0)
+  else if kind = 2 then Code.localOp2 n r (act.getD 0 0) (act.getD 1 0)
+  else Code.localOpK n r (act.take kind) ((act.drop kind).take kind) (act.drop (2 * kind))
 
 /-- a move section starting with `-1` is `step_to_solution(td, solution)` (the `solution_to` branch of
 `_step`: the next tour is the given array); anything else is an action for `_local_operator` -/
@@ -91,16 +91,44 @@ def steps (toks : List String) : Option String := do
   let kind := kind.toNat
   let n := n.toNat
   let D := fn2 n dm
-  let s0 := freezeState n (reset n D (recOf rc))
+  let P := if kind = 0 then Code.pdpParams else Code.koptParams
+  let s0 := freezeState n (resetP P n D (recOf rc))
   let states := (moves.foldl (fun (acc : List State × State) mv =>
-      let s' := freezeState n (step n D (applyMoveI kind n) acc.2 mv)
+      let s' := freezeState n (stepP P n D (applyMoveI kind n) acc.2 mv)
       (s' :: acc.1, s')) ([s0], s0)).1.reverse
   let col (f : State → String) := ";".intercalate (states.map f)
   pure s!"cur={col (fun s => recStr n s.recCur)} best={col (fun s => recStr n s.recBest)} ccur={col (fun s => toString s.costCur)} cbsf={col (fun s => toString s.costBsf)} rew={col (fun s => toString s.reward)} vt={col (fun s => recStr n s.vt)}"
 
+/-- `improve.bsteps kind n B | D_1 | … | D_B | rec0_1 | … | rec0_B | (B move sections per step) …`
+the BATCHED model (`batchStepP`, column by column); reply as `improve.steps`, rows separated by `#`. -/
+def bsteps (toks : List String) : Option String := do
+  let ([kind, n, b] :: rest) ← parseSections toks | none
+  let kind := kind.toNat
+  let n := n.toNat
+  let b := b.toNat
+  if b = 0 then none
+  let Ds := (rest.take b).map (fn2 n)
+  let recs := ((rest.drop b).take b).map recOf
+  let moves := rest.drop (2 * b)
+  let P := if kind = 0 then Code.pdpParams else Code.koptParams
+  let ss0 := (List.zipWith (fun D r => freezeState n (resetP P n D r)) Ds recs)
+  let rec chunks (fuel : Nat) (l : List (List Int)) : List (List (List Int)) :=
+    match fuel with
+    | 0 => []
+    | fuel + 1 => if l.isEmpty then [] else l.take b :: chunks fuel (l.drop b)
+  let steps := chunks (moves.length + 1) moves
+  let trace := (steps.foldl (fun (acc : List (List State) × List State) mvs =>
+      let ss' := (batchStepP P n Ds (applyMoveI kind n) acc.2 mvs).map (freezeState n)
+      (ss' :: acc.1, ss')) ([ss0], ss0)).1.reverse
+  let rowStr (r : Nat) : String :=
+    let states := trace.filterMap (·[r]?)
+    let col (f : State → String) := ";".intercalate (states.map f)
+    s!"{col (fun s => recStr n s.recCur)}|{col (fun s => recStr n s.recBest)}|{col (fun s => toString s.costCur)}|{col (fun s => toString s.costBsf)}|{col (fun s => toString s.reward)}|{col (fun s => recStr n s.vt)}"
+  pure s!"rows={"#".intercalate ((List.range b).map rowStr)}"
+
 def handlers : List (String × (List String → Option String)) :=
   [("improve.kopt2", kopt2), ("improve.koptk", koptk), ("improve.koptgen", koptgen),
    ("improve.pdprr", pdprr), ("improve.pdpmask", pdpmask), ("improve.spec", spec),
-   ("improve.steps", steps)]
+   ("improve.steps", steps), ("improve.bsteps", bsteps)]
 
 end Rl4co.Driver.Improve
